@@ -407,6 +407,21 @@ impl<'tcx> M<'tcx> {
             let m = n.rsplit("::").next().unwrap_or("");
             if (m == "nth" || m == "nth_back") && vals.len() == 2 {
                 let inner = pointee(t0);
+                if let Ok(V::Obj(kind, xs)) = self.load(&p, inner) {
+                    // nth on a modelled Zip whose items are references (slice iterators on the left): skip k items by pulling them
+                    if m == "nth" && (kind == "zip" || kind == "zipx") {
+                        let mut it = V::Obj(kind, xs);
+                        let mut r = V::Enum(0, vec![]);
+                        for _ in 0..=(k.max(0) as usize) {
+                            r = self.iter_method(&mut it, "next")?;
+                            if matches!(r, V::Enum(0, _)) {
+                                break;
+                            }
+                        }
+                        self.store(&p, inner, it)?;
+                        return Ok(Some(r));
+                    }
+                }
                 if let Ok(V::SliceIter(sp, mut a, mut b, mu)) = self.load(&p, inner) {
                     let k = (k.max(0) as usize).min(b - a);
                     if m == "nth" {
